@@ -118,6 +118,8 @@ def _judge_minimize(variable, graph, res, exc):
     g = _names_rg(ref)
     name, world = cfvar_json(variable)
     case = {"graph": gd_of(ref), "variable": [name, world, variable.star], "op": "minimize"}
+    if mon_id.cards_hint():
+        case["cards"] = mon_id.cards_hint()
     want = ref_minimal_subscripts(g, name, world)
     mech = None
     if exc is not None:
@@ -201,6 +203,8 @@ def _post_components(snap, res, *, conditioned_variables, root_variables, graph)
     if len(want) < len(roots):
         kernel.count("C19:components:merged-sets")
     case = {"graph": gd_of(ref), "conditioned": cond, "roots": roots, "op": "components"}
+    if mon_id.cards_hint():
+        case["cards"] = mon_id.cards_hint()
     if got != want:
         mech = None
         kernel.violation("C19", "ancestral-components",
@@ -334,6 +338,8 @@ def _judge_simplify(event, graph, res, exc):
         kernel.count("C19:simplify:invalid-input-skipped")
         return
     case = {"graph": gd_of(ref), "event": ev, "op": "simplify"}
+    if mon_id.cards_hint():
+        case["cards"] = mon_id.cards_hint()
     g = _names_rg(ref)
     reflexive = any(c[0] in {i for i, _ in c[1]} for c in ev)
     empty_min = any(c[1] and not ref_minimal_subscripts(g, c[0], c[1]) for c in ev)
@@ -406,6 +412,8 @@ def _judge_factorization(variables, graph, res, exc):
         kernel.count("C19:factorization:invalid-input-skipped")
         return
     case = {"graph": gd_of(ref), "event": ev, "op": "factorization"}
+    if mon_id.cards_hint():
+        case["cards"] = mon_id.cards_hint()
     g = _names_rg(ref)
     empty_min = any(c[1] and not ref_minimal_subscripts(g, c[0], c[1]) for c in ev)
     reflexive = any(c[0] in {i for i, _ in c[1]} for c in ev)
@@ -502,6 +510,8 @@ def _judge_factors(label, items, graph, res, exc, var_of):
     g = _names_rg(ref)
     in_form = all(_is_ctf_form_ref(g, v) for v in vars_)
     case = {"graph": gd_of(ref), "variables": [cfvar_json(v) for v in vars_], "op": label}
+    if mon_id.cards_hint():
+        case["cards"] = mon_id.cards_hint()
     if exc is not None:
         if in_form or not isinstance(exc, ValueError):
             kernel.violation("C19", "ctf-factors", f"{label} raised {type(exc).__name__}: {exc} on variables "
@@ -602,6 +612,8 @@ def _post_convert(snap, res, *, event, graph):
     g = _names_rg(ref)
     kernel.count("C19:convert:checked")
     case = {"graph": gd_of(ref), "variables": [cfvar_json(v) for v, _ in pairs], "op": "convert_to_ctf_form"}
+    if mon_id.cards_hint():
+        case["cards"] = mon_id.cards_hint()
     if len(res) != len(pairs):
         kernel.violation("C19", "ctf-convert", f"convert_to_counterfactual_factor_form returned {len(res)} items for "
                          f"{len(pairs)}", case=case)
@@ -791,6 +803,8 @@ def _judge_ctf(label, snap, res, exc):
         return
     out_ev, cond_ev = snap["outcomes"], snap["conditions"]
     case = {"graph": gd_of(ref), "outcomes": out_ev, "conditions": cond_ev, "domains": doms, "op": label}
+    if mon_id.cards_hint():
+        case["cards"] = mon_id.cards_hint()
     if not snap["valid"]:
         kernel.count("C09:rejected-by-own-validation")
         return
